@@ -28,6 +28,12 @@ while read -r P IDS; do
         n=$(echo "$out" | grep -c '^VIOLATION')
         first=$(echo "$out" | grep -m1 'failed:' | cut -c1-200)
         echo "$P $ID exit=$rc violations=$n wall=$(( $(date +%s) - t0 )) $first" >> "$OUT"
+        if [ -n "$HARVEST" ] && [ $rc -eq 1 ]; then
+           # keep the smallest shrunk replay as a regression case: corpus/<ID>/<HARVEST>-<name>.json
+           name=$(echo "$P" | sed 's|/patch.diff||; s|.*/seeded-out/||; s|.*/seeded/||; s|.*/mutants/||; s|\.patch$||; s|/|-|g')
+           f=$(ls -S -r "$MX/root/replays/$ID"/*.json 2>/dev/null | head -1)
+           if [ -n "$f" ]; then mkdir -p "/verif/corpus/$ID"; sed "s|$MX/repo|/repo|g" "$f" > "/verif/corpus/$ID/$HARVEST-$name.json"; fi
+        fi
      done
   fi
   git -C "$MX/repo" checkout -- . 
